@@ -132,7 +132,8 @@ Proof.
 Qed.
 
 (* ------------------------------------------------------------------------- *)
-(** * The tokeniser: what is diagnosed, for every table [T], every argument tail and every parser state *)
+(** * The tokeniser: unknown or malformed options are errors (RuntimeError) - for every table [T], every
+      argument tail and every parser state *)
 
 Ltac known_false t := let E := fresh in assert (E : t = false) by (vm_compute; reflexivity); rewrite E; clear E.
 Ltac known_true t := let E := fresh in assert (E : t = true) by (vm_compute; reflexivity); rewrite E; clear E.
@@ -146,27 +147,58 @@ Proof.
   unfold handle.
   known_false (mem_str [102%N] [s2l "o"; s2l "output"]). known_false (str_eqb [102%N] (s2l "O")).
   known_true (mem_str [102%N] [s2l "f"; s2l "flag"]). known_true (str_eqb [102%N] (s2l "f")).
-  destruct (starts_with (s2l "no-") v); rewrite Hn; reflexivity.
+  unfold parse_flag_arg. destruct (starts_with (s2l "no-") v); rewrite Hn; reflexivity.
 Qed.
 
-(** --flag <name>[=<value>] with a name that is not a flag (and at most one "=") *)
-Theorem unknown_long_flag_is_error : forall T v rest st,
-  match split_on 61 v [] with
-  | [_] => assoc_str (t_names T) (flagify v) = None
-  | [n; _] => assoc_str (t_names T) (flagify n) = None
-  | _ => False
-  end ->
-  tokenise T (s2l "--flag" :: v :: rest) st = Error EUnknownFlag.
+Lemma long_flag_step T v rest st :
+  tokenise T (s2l "--flag" :: v :: rest) st =
+  match (match parse_flag_arg false v with
+         | Ok (n, set_to) => match assoc_str (t_names T) (flagify n) with
+                             | Some k => Ok (Some (add_override st k set_to)) | None => Error EUnknownFlag end
+         | Error e => Error e | Crash c => Crash c | Fuel => Fuel end) with
+  | Ok (Some st') => tokenise T rest st'
+  | r => r
+  end.
 Proof.
-  intros T v rest st Hv. change (s2l "--flag") with (45 :: 45 :: s2l "flag")%N. cbn [tokenise].
+  change (s2l "--flag") with (45 :: 45 :: s2l "flag")%N. cbn [tokenise].
   known_false (negb (45 =? 45)%N). known_true (45 =? 45)%N. known_false (mem_str (s2l "flag") no_value_names).
   unfold handle.
   known_false (mem_str (s2l "flag") [s2l "o"; s2l "output"]). known_false (str_eqb (s2l "flag") (s2l "O")).
   known_true (mem_str (s2l "flag") [s2l "f"; s2l "flag"]). known_false (str_eqb (s2l "flag") (s2l "f")).
-  destruct (split_on 61 v []) as [|a [|b [|c r]]]; try contradiction; rewrite Hv; reflexivity.
+  reflexivity.
+Qed.
+(** --flag <name>[=<value>] with a name that is not a flag *)
+Theorem unknown_long_flag_is_error : forall T v n b rest st,
+  parse_flag_arg false v = Ok (n, b) -> assoc_str (t_names T) (flagify n) = None ->
+  tokenise T (s2l "--flag" :: v :: rest) st = Error EUnknownFlag.
+Proof. intros T v n b rest st H1 H2. rewrite long_flag_step, H1, H2. reflexivity. Qed.
+(** --flag <name>=<value> with a value other than yes / on / no / off (this includes name=a=b): RuntimeError *)
+Theorem malformed_flag_value_is_error : forall T v n w rest st,
+  split_first 61 v [] = Some (n, w) -> flag_value w = None ->
+  tokenise T (s2l "--flag" :: v :: rest) st = Error EInvalidFlagValue.
+Proof. intros T v n w rest st H1 H2. rewrite long_flag_step. unfold parse_flag_arg. rewrite H1, H2. reflexivity. Qed.
+
+(** -O<value> where the value is not an integer or not a level of the table: RuntimeError "Invalid optimization level" *)
+Theorem malformed_level_is_error : forall T v rest st,
+  parse_level (t_meta T) v = None -> tokenise T ((45 :: 79 :: v)%N :: rest) st = Error EInvalidLevel.
+Proof.
+  intros T v rest st H. cbn [tokenise]. known_false (negb (45 =? 45)%N). known_false (79 =? 45)%N.
+  unfold handle. known_false (mem_str [79%N] [s2l "o"; s2l "output"]). known_true (str_eqb [79%N] (s2l "O")).
+  rewrite H. reflexivity.
 Qed.
 
-(** an option letter / long name that is not an option: RuntimeError "Unknown option" *)
+(** -d<a>,<b>,... with a target that is not a dump kind: RuntimeError "Unknown dump target" *)
+Theorem unknown_dump_is_error : forall T v rest st,
+  parse_dumps (t_dumps T) (split_on 44 v []) = None -> tokenise T ((45 :: 100 :: v)%N :: rest) st = Error EUnknownDump.
+Proof.
+  intros T v rest st H. cbn [tokenise]. known_false (negb (45 =? 45)%N). known_false (100 =? 45)%N.
+  unfold handle. known_false (mem_str [100%N] [s2l "o"; s2l "output"]). known_false (str_eqb [100%N] (s2l "O")).
+  known_false (mem_str [100%N] [s2l "f"; s2l "flag"]). known_false (mem_str [100%N] [s2l "h"; s2l "help"]).
+  known_false (str_eqb [100%N] (s2l "help-all")). known_false (str_eqb [100%N] (s2l "version")).
+  known_true (mem_str [100%N] [s2l "d"; s2l "dump"]). rewrite H. reflexivity.
+Qed.
+
+(** an option letter that is not an option: RuntimeError "Unknown option" *)
 Theorem unknown_short_option_is_error : forall T c t rest st,
   existsb (N.eqb c) [45; 111; 79; 102; 104; 100; 116]%N = false ->          (* not one of - o O f h d t *)
   index_str (map fst (t_options T)) (flagify [c]) 0 = None ->
@@ -178,6 +210,21 @@ Proof.
   repeat match goal with |- context[s2l ?s] => let v := eval vm_compute in (s2l s) in change (s2l s) with v end.
   cbn [PyLite.str_eqb]. rewrite ?andb_false_r, ?andb_true_r, ?orb_false_r.
   rewrite H0, H1, H2, H3, H4, H5. cbn [orb andb]. rewrite Ho. reflexivity.
+Qed.
+(** a long option name that is neither a built-in option nor a ProgramOption *)
+Definition builtin_long : list pystr :=
+  [s2l "o"; s2l "output"; s2l "O"; s2l "f"; s2l "flag"; s2l "h"; s2l "help"; s2l "help-all"; s2l "version";
+   s2l "d"; s2l "dump"; s2l "dump-prefix"; s2l "t"; s2l "dry-run"].
+Theorem unknown_long_option_is_error : forall T name v rest st,
+  mem_str name builtin_long = false -> index_str (map fst (t_options T)) (flagify name) 0 = None ->
+  tokenise T ((45 :: 45 :: name)%N :: v :: rest) st = Error EUnknownOption.
+Proof.
+  intros T name v rest st Hb Ho. cbn [tokenise]. known_false (negb (45 =? 45)%N). known_true (45 =? 45)%N.
+  unfold builtin_long, mem_str in Hb. cbn [existsb] in Hb. repeat (apply orb_false_elim in Hb; destruct Hb as [? Hb]).
+  assert (Hnv : mem_str name no_value_names = false).
+  { unfold mem_str, no_value_names. cbn [existsb]. rewrite H5, H12, H7, H6. reflexivity. }
+  rewrite Hnv. unfold handle, mem_str. cbn [existsb].
+  rewrite H, H0, H1, H2, H3, H4, H5, H6, H7, H8, H9, H10, H11, H12. cbn [orb]. rewrite Ho. reflexivity.
 Qed.
 
 (** a lone "-" : RuntimeError "Invalid argument"; a long option at the end without its value: "Missing value" *)
@@ -192,16 +239,190 @@ Proof. intros T c t rest st H1 H2. cbn [tokenise]. rewrite H1, H2. reflexivity. 
 Theorem no_input_is_error : forall T st, p_have_input st = false -> tokenise T [] st = Error ENoInput.
 Proof. intros T st H. cbn [tokenise]. rewrite H. reflexivity. Qed.
 
-(** what the model says about the malformed arguments that are NOT diagnosed (replayed on the implementation
-    by the harness; these are findings about nmfu, not proof obligations of the property) *)
-Definition cmd (l : list String.string) : list pystr := map s2l l.
-Example malformed_level_not_int_crashes : run_cmdline gT (cmd ["-Ofoo"; "x.nmfu"]) = Crash ValueError.
+(* ------------------------------------------------------------------------- *)
+(** * No command line makes load_commandline_flags raise anything but RuntimeError ([Crash] never happens) *)
+
+(** side conditions on the tables, computed on the generated ones below *)
+Definition has_level (m : meta) (k : N) : bool := existsb (fun e => (fst e =? k)%N) (mlevels m).
+Definition levels_closed (m : meta) : bool :=
+  forallb (fun e => forallb (fun j => has_level m (N.of_nat j)) (seq 0 (S (N.to_nat (fst e))))) (mlevels m).
+Definition names_ok (T : tables) : bool :=
+  forallb (fun p => is_member (table_lookup (t_meta T)) (snd p)) (t_names T).
+Definition tables_ok (T : tables) : bool := levels_closed (t_meta T) && names_ok T && level_member (t_meta T) 1.
+
+Lemma handle_no_crash T name value st k : handle T name value st <> Crash k.
+Proof.
+  unfold handle.
+  destruct (mem_str name [s2l "o"; s2l "output"]); [destruct (existsb _ value); discriminate|].
+  destruct (str_eqb name (s2l "O")); [destruct (parse_level _ value); discriminate|].
+  destruct (mem_str name [s2l "f"; s2l "flag"]).
+  { unfold parse_flag_arg. destruct (str_eqb name (s2l "f")).
+    - destruct (starts_with _ value); destruct (assoc_str _ _); discriminate.
+    - destruct (split_first 61 value []) as [[n v]|]; [destruct (flag_value v)|]; try discriminate;
+        destruct (assoc_str _ _); discriminate. }
+  destruct (mem_str name [s2l "h"; s2l "help"]); [discriminate|].
+  destruct (str_eqb name (s2l "help-all")); [discriminate|].
+  destruct (str_eqb name (s2l "version")); [discriminate|].
+  destruct (mem_str name [s2l "d"; s2l "dump"]); [destruct (parse_dumps _ _); discriminate|].
+  destruct (str_eqb name (s2l "dump-prefix")); [discriminate|].
+  destruct (mem_str name [s2l "t"; s2l "dry-run"]); [discriminate|].
+  destruct (index_str _ _ 0) as [i|]; [|discriminate].
+  destruct (match nth_error (t_options T) i with Some (_, b) => b | None => false end); [|discriminate].
+  destruct (PyLite.py_int_lit value 10); discriminate.
+Qed.
+
+Definition good (T : tables) (st : pstate) : Prop :=
+  level_member (t_meta T) (p_level st) = true
+  /\ Forall (fun kv => is_member (table_lookup (t_meta T)) (fst kv) = true) (p_overrides st).
+
+Lemma assoc_str_in {V} (l : list (pystr * V)) k v : assoc_str l k = Some v -> exists k', In (k', v) l.
+Proof.
+  induction l as [|[a b] l IH]; simpl; [discriminate|]. destruct (str_eqb k a).
+  - intros H; inversion H; subst. eauto.
+  - intros H. destruct (IH H) as [k' Hk]. eauto.
+Qed.
+
+Lemma handle_good T name value st st' : names_ok T = true -> good T st -> handle T name value st = Ok (Some st') -> good T st'.
+Proof.
+  intros HN [G1 G2]. unfold handle.
+  destruct (mem_str name [s2l "o"; s2l "output"]).
+  { destruct (existsb _ value); [discriminate|]. intros H; inversion H; subst. split; assumption. }
+  destruct (str_eqb name (s2l "O")).
+  { unfold parse_level. destruct (PyLite.py_int_lit value 10) as [z| |]; try discriminate.
+    destruct (level_member (t_meta T) z) eqn:E; [|discriminate]. intros H; inversion H; subst. split; [exact E|exact G2]. }
+  destruct (mem_str name [s2l "f"; s2l "flag"]).
+  { destruct (parse_flag_arg _ value) as [[n b]| | |]; try discriminate.
+    destruct (assoc_str (t_names T) (flagify n)) as [k|] eqn:E; [|discriminate]. intros H; inversion H; subst.
+    split; [exact G1|]. simpl. apply Forall_app. split; [exact G2|]. constructor; [|constructor]. simpl.
+    destruct (assoc_str_in _ _ _ E) as [k' Hk]. unfold names_ok in HN. rewrite forallb_forall in HN. exact (HN _ Hk). }
+  destruct (mem_str name [s2l "h"; s2l "help"]); [discriminate|].
+  destruct (str_eqb name (s2l "help-all")); [discriminate|].
+  destruct (str_eqb name (s2l "version")); [discriminate|].
+  destruct (mem_str name [s2l "d"; s2l "dump"]).
+  { destruct (parse_dumps _ _); [|discriminate]. intros H; inversion H; subst. split; assumption. }
+  destruct (str_eqb name (s2l "dump-prefix")); [intros H; inversion H; subst; split; assumption|].
+  destruct (mem_str name [s2l "t"; s2l "dry-run"]); [intros H; inversion H; subst; split; assumption|].
+  destruct (index_str _ _ 0) as [i|]; [|discriminate].
+  destruct (match nth_error (t_options T) i with Some (_, b) => b | None => false end).
+  - destruct (PyLite.py_int_lit value 10); try discriminate. intros H; inversion H; subst. split; assumption.
+  - intros H; inversion H; subst. split; assumption.
+Qed.
+
+Lemma tokenise_good T : names_ok T = true -> forall n args st, (length args <= n)%nat -> good T st ->
+  match tokenise T args st with
+  | Crash _ => False
+  | Ok (Some st') => good T st'
+  | _ => True
+  end.
+Proof.
+  intros HN. induction n as [|n IH]; intros args st Hlen G.
+  - destruct args; [|simpl in Hlen; lia]. simpl. destruct (p_have_input st); [exact G|exact I].
+  - destruct args as [|a rest]; [simpl; destruct (p_have_input st); [exact G|exact I]|].
+    simpl in Hlen. cbn [tokenise]. destruct a as [|c0 t0]; [apply IH; [lia|exact G]|].
+    destruct (negb (c0 =? 45)%N).
+    { destruct (p_have_input st); [exact I|]. apply IH; [lia|]. destruct G. split; assumption. }
+    destruct t0 as [|c1 t1]; [exact I|].
+    destruct (c1 =? 45)%N.
+    + destruct (mem_str t1 no_value_names).
+      * destruct (handle T t1 [] st) as [[st'|]|e|k|] eqn:EH; try exact I.
+        -- apply IH; [lia|]. exact (handle_good _ _ _ _ _ HN G EH).
+        -- exact (handle_no_crash _ _ _ _ _ EH).
+      * destruct rest as [|v rest']; [exact I|].
+        destruct (handle T t1 v st) as [[st'|]|e|k|] eqn:EH; try exact I.
+        -- apply IH; [simpl in Hlen; lia|]. exact (handle_good _ _ _ _ _ HN G EH).
+        -- exact (handle_no_crash _ _ _ _ _ EH).
+    + destruct (handle T [c1] t1 st) as [[st'|]|e|k|] eqn:EH; try exact I.
+      * apply IH; [lia|]. exact (handle_good _ _ _ _ _ HN G EH).
+      * exact (handle_no_crash _ _ _ _ _ EH).
+Qed.
+
+Lemma has_level_find m k : has_level m k = true -> exists e, find (fun e => (fst e =? k)%N) (mlevels m) = Some e.
+Proof.
+  unfold has_level. induction (mlevels m) as [|a l IH]; simpl; [discriminate|].
+  destruct (fst a =? k)%N; [eauto|exact IH].
+Qed.
+Lemma apply_levels_ok m : forall count j c, (forall i, (i < count)%nat -> has_level m (j + N.of_nat i) = true) ->
+  exists c', apply_levels m count j c = Ok c'.
+Proof.
+  induction count as [|n IH]; intros j c H; simpl; [eauto|].
+  destruct (has_level_find m j) as [e E]. { specialize (H 0%nat ltac:(lia)). rewrite N.add_0_r in H. exact H. }
+  rewrite E. apply IH. intros i Hi. specialize (H (S i) ltac:(lia)).
+  replace (j + 1 + N.of_nat i)%N with (j + N.of_nat (S i))%N by lia. exact H.
+Qed.
+Lemma level_member_all m lv : levels_closed m = true -> level_member m lv = true ->
+  forall i, (i < Z.to_nat (lv + 1))%nat -> has_level m (0 + N.of_nat i) = true.
+Proof.
+  unfold levels_closed, level_member. intros HC HM i Hi. apply andb_prop in HM as [H0 HM]. apply Z.leb_le in H0.
+  apply existsb_exists in HM. destruct HM as [e [He Ek]]. apply N.eqb_eq in Ek.
+  rewrite forallb_forall in HC. specialize (HC e He). rewrite forallb_forall in HC. rewrite N.add_0_l.
+  apply HC. apply in_seq. rewrite Ek. lia.
+Qed.
+
+Lemma imp_fix_no_crash m : forall fuel c k, imp_fix fuel m c <> Crash k.
+Proof.
+  induction fuel as [|n IH]; intros c k; simpl; [discriminate|].
+  destruct (imp_pass (mflags m) c false) as [c' did]. destruct did; [apply IH|discriminate].
+Qed.
+Lemma excl_step_no_crash ex f xs : forall c k, excl_step ex f xs c <> Crash k.
+Proof. induction xs as [|x r IH]; intros c k; simpl; [discriminate|]. destruct (ex x); [discriminate|apply IH]. Qed.
+Lemma aux_no_crash lk ex : forall fuel f c k, aux fuel lk ex f c <> Crash k.
+Proof.
+  induction fuel as [|n IHn]; intros f c k; [discriminate|]. simpl.
+  destruct (excl_step ex f (exclusive_of lk f) c) as [c1|e1|k1|] eqn:ES; try discriminate.
+  - clear ES. revert c1. induction (implies_of lk f) as [|g r IHr]; intros c1; [discriminate|].
+    destruct (aux n lk ex g c1) as [c2|e2|k2|] eqn:EA; try discriminate; [apply IHr|].
+    destruct (IHn _ _ _ EA).
+  - destruct (excl_step_no_crash _ _ _ _ _ ES).
+Qed.
+Lemma excl_loop_no_crash lk ex fuel : forall keys c k, excl_loop fuel lk ex keys c <> Crash k.
+Proof.
+  induction keys as [|f r IH]; intros c k; simpl; [discriminate|].
+  destruct (get c f); [|apply IH]. destruct (aux fuel lk ex f c) as [c1|e1|k1|] eqn:EA; try discriminate; [apply IH|].
+  destruct (aux_no_crash _ _ _ _ _ _ EA).
+Qed.
+
+Lemma oset_keys d k v : forall x, In x (map fst (oset d k v)) -> x = k \/ In x (map fst d).
+Proof.
+  induction d as [|[a b] d IH]; simpl; intros x H; [intuition|].
+  destruct (k =? a)%N eqn:E; simpl in H |- *; [tauto|]. destruct H as [H|H]; [tauto|]. destruct (IH _ H); tauto.
+Qed.
+Lemma ov_dict_keys l : forall x, In x (map fst (ov_dict l)) -> In x (map fst l).
+Proof.
+  unfold ov_dict. assert (G : forall l acc x, In x (map fst (fold_left (fun d kv => oset d (fst kv) (snd kv)) l acc)) ->
+                                       In x (map fst acc) \/ In x (map fst l)).
+  { induction l0 as [|[k v] l0 IH]; intros acc x H; simpl in *; [tauto|].
+    destruct (IH _ _ H) as [H1|H1]; [|tauto]. destruct (oset_keys _ _ _ _ H1); [subst; tauto|tauto]. }
+  intros x H. destruct (G l [] x H) as [[]|H1]. exact H1.
+Qed.
+
+Lemma resolve_no_crash m lv l k : levels_closed m = true -> level_member m lv = true ->
+  Forall (fun kv => is_member (table_lookup m) (fst kv) = true) l -> resolve m lv l <> Crash k.
+Proof.
+  intros HC HM HK. unfold resolve, resolve_from.
+  destruct (apply_levels_ok m (Z.to_nat (lv + 1)) 0%N (init m) (level_member_all m lv HC HM)) as [c1 E]. rewrite E.
+  assert (forallb (fun kv => is_member (table_lookup m) (fst kv)) (ov_dict l) = true) as ->.
+  { apply forallb_forall. intros [a b] Hin. simpl. rewrite Forall_forall in HK.
+    assert (In a (map fst l)) as Ha by (apply ov_dict_keys; apply in_map_iff; exists (a, b); auto).
+    apply in_map_iff in Ha. destruct Ha as [kv [E1 Hkv]]. rewrite <- E1. exact (HK _ Hkv). }
+  destruct (imp_fix (fuel_of m) m (apply_overrides (ov_dict l) c1)) as [c3|e|k3|] eqn:EI; try discriminate.
+  - apply excl_loop_no_crash.
+  - destruct (imp_fix_no_crash _ _ _ _ EI).
+Qed.
+
+(** for every table satisfying the computed side condition and EVERY argument list: no exception other than
+    RuntimeError (and SystemExit for help/version) leaves load_commandline_flags *)
+Theorem never_crashes_gen : forall T, tables_ok T = true -> forall args k, run_cmdline T args <> Crash k.
+Proof.
+  intros T HT args k. unfold tables_ok in HT. apply andb_prop in HT as [HT H1]. apply andb_prop in HT as [HC HN].
+  assert (G0 : good T p0) by (split; [exact H1|constructor]).
+  pose proof (tokenise_good T HN (length args) args p0 (le_n _) G0) as HG. unfold run_cmdline.
+  destruct (tokenise T args p0) as [[st|]|e|k0|]; try discriminate; try contradiction.
+  destruct HG as [G1 G2].
+  destruct (resolve (t_meta T) (p_level st) (p_overrides st)) as [c|e|k1|] eqn:ER; try discriminate.
+  destruct (resolve_no_crash _ _ _ _ HC G1 G2 ER).
+Qed.
+
+Lemma gT_tables_ok : tables_ok gT = true.
 Proof. vm_compute. reflexivity. Qed.
-Example malformed_level_out_of_table_crashes : run_cmdline gT (cmd ["-O9"; "x.nmfu"]) = Crash KeyError.
-Proof. vm_compute. reflexivity. Qed.
-Example malformed_flag_two_equals_crashes : run_cmdline gT (cmd ["--flag"; "eof-support=yes=no"; "x.nmfu"]) = Crash ValueError.
-Proof. vm_compute. reflexivity. Qed.
-Example malformed_dump_kind_crashes : run_cmdline gT (cmd ["-dfoo"; "x.nmfu"]) = Crash ValueError.
-Proof. vm_compute. reflexivity. Qed.
-Example negative_level_is_accepted : classify (run_cmdline gT (cmd ["-O-1"; "x.nmfu"])) = 0%N.
-Proof. vm_compute. reflexivity. Qed.
+Theorem never_crashes : forall args k, run_cmdline gT args <> Crash k.
+Proof. exact (never_crashes_gen gT gT_tables_ok). Qed.
